@@ -110,7 +110,8 @@ func generatePads(pad int) string {
 }
 
 func outputQueryAndErrPos(query string, pos int, adjust int) string {
-	tquery := strings.TrimSpace(query)
+	// (the blanks of the lexer: a Unicode blank is a word character there)
+	tquery := strings.Trim(query, " \t\n\v\f\r")
 	qlen := len(tquery)
 	if pos == -1 {
 		pos = qlen
